@@ -1,0 +1,81 @@
+//go:build verif
+
+// Hooks for the verification machinery in /verif. Compiled only with -tags verif.
+// Nothing here changes the behaviour of the package; it only exports internals read-only.
+
+package jsonschema
+
+import (
+	"hash/maphash"
+	"reflect"
+	"sort"
+)
+
+// VerifHash returns the hash that uniqueItems computes for v under the given seed
+// (the internal hashValue written into a maphash.Hash).
+func VerifHash(seed maphash.Seed, v any) uint64 {
+	var h maphash.Hash
+	h.SetSeed(seed)
+	hashValue(&h, reflect.ValueOf(v))
+	return h.Sum64()
+}
+
+// VerifTarget describes the static resolution recorded for one schema.
+type VerifTarget struct {
+	Path          string // path of the referring schema (as recorded by checkStructure)
+	RefPath       string // path (within its own document) of the schema $ref resolved to, "" if none
+	RefBase       string // base URI of the resource holding the $ref target
+	DynRefPath    string // same for a lexically behaving $dynamicRef
+	DynRefBase    string
+	DynamicAnchor string // anchor name looked up dynamically, "" if none
+	Base          string // base URI of the resource enclosing the referring schema
+}
+
+// VerifTargets lists, for every schema known to rs that has a $ref or $dynamicRef, what Resolve recorded.
+func VerifTargets(rs *Resolved) []VerifTarget {
+	var out []VerifTarget
+	baseOf := func(s *Schema) string {
+		if s == nil {
+			return ""
+		}
+		info := rs.resolvedInfos[s]
+		if info == nil || info.base == nil {
+			return "?"
+		}
+		bi := rs.resolvedInfos[info.base]
+		if bi == nil || bi.uri == nil {
+			return "?"
+		}
+		return bi.uri.String()
+	}
+	pathOf := func(s *Schema) string {
+		if s == nil {
+			return ""
+		}
+		if info := rs.resolvedInfos[s]; info != nil {
+			return info.path
+		}
+		return "?"
+	}
+	for s, info := range rs.resolvedInfos {
+		if s.Ref == "" && s.DynamicRef == "" {
+			continue
+		}
+		out = append(out, VerifTarget{
+			Path:          info.path,
+			Base:          baseOf(s),
+			RefPath:       pathOf(info.resolvedRef),
+			RefBase:       baseOf(info.resolvedRef),
+			DynRefPath:    pathOf(info.resolvedDynamicRef),
+			DynRefBase:    baseOf(info.resolvedDynamicRef),
+			DynamicAnchor: info.dynamicRefAnchor,
+		})
+	}
+	sort.Slice(out, func(i, j int) bool {
+		if out[i].Base != out[j].Base {
+			return out[i].Base < out[j].Base
+		}
+		return out[i].Path < out[j].Path
+	})
+	return out
+}
